@@ -263,3 +263,642 @@ Proof.
     intros j Hj. specialize (Hab j Hj). rewrite Z.sub_0_r in Hab. exact Hab.
   - intros j Hj. specialize (Hall j Hj). rewrite Z.sub_0_r in Hall. exact Hall.
 Qed.
+
+(* ================================================================== *)
+(** * 3. MinIndex                                                      *)
+(* ================================================================== *)
+
+(* cell of index j in a list of pages whose head has page number P *)
+Definition cellf (pgs : list (list W)) (P j : Z) : W := at_ (pgat pgs (page_index j - P)) (line_index j).
+Lemma cellf_cell s j : cellf (pages s) (minPage s) j = cell s j.
+Proof. reflexivity. Qed.
+Lemma cellf_nil P j : cellf [] P j = w0.
+Proof. unfold cellf. rewrite pgat_nil, at_nil. reflexivity. Qed.
+Lemma cellf_cons pg tl P j :
+  cellf (pg :: tl) P j = if page_index j =? P then at_ pg (line_index j) else cellf tl (P + 1) j.
+Proof.
+  unfold cellf. rewrite pgat_cons.
+  destruct (Z.eqb_spec (page_index j - P) 0) as [E|E]; destruct (Z.eqb_spec (page_index j) P) as [E'|E'];
+    try lia; try reflexivity.
+  replace (page_index j - P - 1) with (page_index j - (P + 1)) by lia. reflexivity.
+Qed.
+Lemma cellf_below pgs P j : j < P * 32 -> cellf pgs P j = w0.
+Proof.
+  intros H. unfold cellf. rewrite pgat_out, at_nil; [reflexivity|]. left. rewrite page_index_div. lia.
+Qed.
+
+Definition below (bm : option Z) (j : Z) : Prop := match bm with Some m => j < m | None => True end.
+Lemma below_mono bm i j : j <= i -> below bm i -> below bm j.
+Proof. destruct bm as [m|]; cbn [below]; [lia|auto]. Qed.
+
+Lemma mp_limit_le bm P : mp_limit bm P <= 32.
+Proof.
+  unfold mp_limit, pageLen. destruct bm as [m|]; [|lia].
+  destruct (P =? page_index m); [|lia]. pose proof (line_index_range m). lia.
+Qed.
+Lemma mp_limit_line bm P j : page_index j = P -> below bm j -> line_index j < mp_limit bm P.
+Proof.
+  intros Hp Hb. unfold mp_limit, pageLen. pose proof (line_index_range j) as Hl.
+  destruct bm as [m|]; [|lia]. cbn [below] in Hb.
+  destruct (Z.eqb_spec P (page_index m)) as [E|E]; [|lia].
+  destruct (idx_decomp j) as [pj [lj [Ep [El [Ej Hlj]]]]].
+  destruct (idx_decomp m) as [pm [lm [Ep' [El' [Em Hlm]]]]].
+  rewrite El, El'. rewrite Ep in Hp. rewrite Ep' in E. lia.
+Qed.
+Lemma mp_limit_below bm P l : mp_guard bm P = true -> 0 <= l < mp_limit bm P -> below bm (P * 32 + l).
+Proof.
+  unfold mp_guard, mp_limit, pageLen. destruct bm as [m|]; cbn [below]; [|auto].
+  intros G Hl. apply Z.leb_le in G.
+  destruct (idx_decomp m) as [pm [lm [Ep' [El' [Em Hlm]]]]]. rewrite Ep', El' in *.
+  destruct (Z.eqb_spec P pm) as [E|E]; lia.
+Qed.
+
+(* the page loop of MinIndex, from page number P on *)
+Lemma min_pages_spec bm : forall pgs P,
+  match min_pages bm pgs P with
+  | Some i => P * 32 <= i /\ (w0 < cellf pgs P i)%Qc /\
+              (forall j, P * 32 <= j < i -> (cellf pgs P j <= w0)%Qc) /\ below bm i
+  | None => forall j, P * 32 <= j -> below bm j -> (cellf pgs P j <= w0)%Qc
+  end.
+Proof.
+  induction pgs as [|pg tl IH]; intros P.
+  - rewrite min_pages_nil. intros j _ _. rewrite cellf_nil. apply wle0_refl.
+  - rewrite min_pages_cons. destruct (mp_guard bm P) eqn:G.
+    2:{ intros j Hj Hb. exfalso. unfold mp_guard in G. destruct bm as [m|]; [|discriminate].
+        apply Z.leb_gt in G. cbn [below] in Hb. rewrite page_index_div in G. lia. }
+    pose proof (mp_limit_le bm P) as Hlim.
+    pose proof (first_pos_spec (mp_limit bm P) pg 0) as FP.
+    destruct (first_pos pg 0 (mp_limit bm P)) as [l|].
+    + destruct FP as [Hl [Hpos Hbel]]. rewrite Z.sub_0_r in Hpos.
+      rewrite index_of_mul. split; [lia|]. split; [|split].
+      * rewrite cellf_cons, <- index_of_mul, page_index_index_of, line_index_index_of, Z.eqb_refl by lia.
+        exact Hpos.
+      * intros j Hj. rewrite cellf_cons. destruct (idx_decomp j) as [pj [lj [Ep [El [Ej Hlj]]]]].
+        rewrite Ep, El. destruct (Z.eqb_spec pj P) as [E|E]; [|lia].
+        specialize (Hbel lj). rewrite Z.sub_0_r in Hbel. apply Hbel. lia.
+      * apply mp_limit_below; [exact G|lia].
+    + specialize (IH (P + 1)). destruct (min_pages bm tl (P + 1)) as [i|].
+      * destruct IH as [H1 [H2 [H3 H4]]]. split; [lia|]. split; [|split].
+        -- rewrite cellf_cons. destruct (Z.eqb_spec (page_index i) P) as [E|E]; [|exact H2].
+           rewrite page_index_div in E. lia.
+        -- intros j Hj. rewrite cellf_cons. destruct (Z.eqb_spec (page_index j) P) as [E|E].
+           ++ pose proof (line_index_range j) as Hlj. specialize (FP (line_index j)).
+              rewrite Z.sub_0_r in FP. apply FP. split; [lia|].
+              apply mp_limit_line; [exact E|]. apply (below_mono bm i); [lia|exact H4].
+           ++ apply H3. rewrite page_index_div in E. lia.
+        -- exact H4.
+      * intros j Hj Hb. rewrite cellf_cons. destruct (Z.eqb_spec (page_index j) P) as [E|E].
+        -- pose proof (line_index_range j) as Hlj. specialize (FP (line_index j)).
+           rewrite Z.sub_0_r in FP. apply FP. split; [lia|]. apply mp_limit_line; assumption.
+        -- apply IH; [|exact Hb]. rewrite page_index_div in E. lia.
+Qed.
+
+Lemma wrap_i64_id z : MinInt64 <= z <= MaxInt64 -> wrap_i64 z = z.
+Proof. unfold MinInt64, MaxInt64, wrap_i64. intros H. lia. Qed.
+
+(* outside the sentinel state there is no wrap-around *)
+Lemma PInv_nowrap s : PInv s -> minPage s <> MaxInt64 ->
+  - PM <= minPage s /\ minPage s + zlen (pages s) <= PM /\ 0 <= zlen (pages s).
+Proof.
+  intros H E. destruct (inv_bnd s H E) as [H1 H2]. split; [exact H1|]. split; [exact H2|apply zlen_nonneg].
+Qed.
+Lemma cell_sent s j : PInv s -> minPage s = MaxInt64 -> cell s j = w0.
+Proof. intros H E. unfold cell. rewrite (inv_sent s H E). apply at_nil. Qed.
+
+(* what the page loop of MinIndex yields, in terms of the cells of the store *)
+Lemma p_min_pages_spec s bm : PInv s ->
+  match (if minPage s <? wrap_i64 (minPage s + zlen (pages s)) then min_pages bm (pages s) (minPage s) else None) with
+  | Some i => (w0 < cell s i)%Qc /\ (forall j, j < i -> (cell s j <= w0)%Qc) /\ below bm i
+  | None => forall j, below bm j -> (cell s j <= w0)%Qc
+  end.
+Proof.
+  intros H. destruct (minPage s <? wrap_i64 (minPage s + zlen (pages s))) eqn:C.
+  - pose proof (min_pages_spec bm (pages s) (minPage s)) as M.
+    destruct (min_pages bm (pages s) (minPage s)) as [i|].
+    + destruct M as [M1 [M2 [M3 M4]]]. split; [exact M2|]. split; [|exact M4].
+      intros j Hj. rewrite <- cellf_cell. destruct (Z.lt_ge_cases j (minPage s * 32)) as [Hlt|Hge].
+      * rewrite cellf_below by exact Hlt. apply wle0_refl.
+      * apply M3. lia.
+    + intros j Hb. rewrite <- cellf_cell. destruct (Z.lt_ge_cases j (minPage s * 32)) as [Hlt|Hge].
+      * rewrite cellf_below by exact Hlt. apply wle0_refl.
+      * apply M; assumption.
+  - intros j _. destruct (Z.eq_dec (minPage s) MaxInt64) as [E|E].
+    + rewrite cell_sent by assumption. apply wle0_refl.
+    + destruct (PInv_nowrap s H E) as [B1 [B2 B3]]. apply Z.ltb_ge in C.
+      rewrite wrap_i64_id in C by (unfold PM, MinInt64, MaxInt64 in *; lia).
+      assert (Hz : zlen (pages s) = 0) by lia. apply zlen_nil_iff in Hz.
+      unfold cell. rewrite Hz, pgat_nil, at_nil. apply wle0_refl.
+Qed.
+
+Lemma cnt_zero_lt b m j : Forall (fun x => m <= x) b -> j < m -> cnt b j = w0.
+Proof.
+  intros Hall Hj. apply cnt_notin. intros Hin. rewrite Forall_forall in Hall. specialize (Hall j Hin). lia.
+Qed.
+Lemma cnt_zero_gt b m j : Forall (fun x => x <= m) b -> m < j -> cnt b j = w0.
+Proof.
+  intros Hall Hj. apply cnt_notin. intros Hin. rewrite Forall_forall in Hall. specialize (Hall j Hin). lia.
+Qed.
+
+Theorem p_min_go_spec s : PInv s -> p_min_go s = min_key (pabs s).
+Proof.
+  intros H. unfold p_min_go. cbv zeta.
+  pose proof (p_min_pages_spec s (buf_min (buffer s)) H) as FP.
+  pose proof (buf_min_spec (buffer s)) as BM.
+  destruct (if minPage s <? wrap_i64 (minPage s + zlen (pages s))
+            then min_pages (buf_min (buffer s)) (pages s) (minPage s) else None) as [i|].
+  - destruct FP as [F1 [F2 F3]]. symmetry. apply (min_key_iff _ _ (wf_pabs s H)). split.
+    + rewrite get_pabs by exact H. unfold pget. pose proof (cnt_nonneg (buffer s) i) as Hc. wlra.
+    + intros j Hj. rewrite get_pabs by exact H. unfold pget.
+      rewrite (wle0_nonneg_eq (cell s j) (F2 j Hj) (cell_nonneg s j H)), wadd_0_r.
+      destruct (buf_min (buffer s)) as [m|].
+      * destruct BM as [_ Hall]. cbn [below] in F3. apply (cnt_zero_lt _ m); [exact Hall|lia].
+      * rewrite BM. apply cnt_nil.
+  - destruct (buf_min (buffer s)) as [m|].
+    + destruct BM as [Hin Hall]. symmetry. apply (min_key_iff _ _ (wf_pabs s H)). split.
+      * rewrite get_pabs by exact H. unfold pget. pose proof (cnt_in_pos (buffer s) m Hin) as Hc.
+        pose proof (cell_nonneg s m H) as Hn. wlra.
+      * intros j Hj. rewrite get_pabs by exact H. unfold pget.
+        rewrite (wle0_nonneg_eq (cell s j) (FP j Hj) (cell_nonneg s j H)), wadd_0_r.
+        apply (cnt_zero_lt _ m); assumption.
+    + assert (E : pabs s = []).
+      { apply (pabs_nil_iff s H). intros i. unfold pget. rewrite BM, cnt_nil, wadd_0_l.
+        apply wle0_nonneg_eq; [apply FP; exact I|apply cell_nonneg; exact H]. }
+      rewrite E. reflexivity.
+Qed.
+
+(* ================================================================== *)
+(** * 4. MaxIndex                                                      *)
+(* ================================================================== *)
+
+(* cell of index j in a REVERSED list of pages whose head has page number P *)
+Definition cellr (rpgs : list (list W)) (P j : Z) : W := at_ (pgat rpgs (P - page_index j)) (line_index j).
+Lemma cellr_nil P j : cellr [] P j = w0.
+Proof. unfold cellr. rewrite pgat_nil, at_nil. reflexivity. Qed.
+Lemma cellr_cons pg tl P j :
+  cellr (pg :: tl) P j = if page_index j =? P then at_ pg (line_index j) else cellr tl (P - 1) j.
+Proof.
+  unfold cellr. rewrite pgat_cons.
+  destruct (Z.eqb_spec (P - page_index j) 0) as [E|E]; destruct (Z.eqb_spec (page_index j) P) as [E'|E'];
+    try lia; try reflexivity.
+  replace (P - page_index j - 1) with (P - 1 - page_index j) by lia. reflexivity.
+Qed.
+Lemma cellr_above rpgs P j : (P + 1) * 32 <= j -> cellr rpgs P j = w0.
+Proof.
+  intros H. unfold cellr. rewrite pgat_out, at_nil; [reflexivity|]. left. rewrite page_index_div. lia.
+Qed.
+Lemma pgat_rev ps k : pgat (rev ps) k = pgat ps (zlen ps - 1 - k).
+Proof.
+  unfold pgat, zlen. destruct (Z.ltb_spec k 0) as [Hk|Hk].
+  - destruct (Z.ltb_spec (Z.of_nat (length ps) - 1 - k) 0) as [H1|H1]; [reflexivity|].
+    symmetry. apply nth_overflow. lia.
+  - destruct (Z.ltb_spec (Z.of_nat (length ps) - 1 - k) 0) as [H1|H1].
+    + apply nth_overflow. rewrite rev_length. lia.
+    + rewrite rev_nth by lia. f_equal. lia.
+Qed.
+Lemma cellr_rev_cell s j :
+  cellr (rev (pages s)) (minPage s + zlen (pages s) - 1) j = cell s j.
+Proof.
+  unfold cellr, cell. rewrite pgat_rev. f_equal. f_equal. lia.
+Qed.
+
+Definition above (bm : option Z) (j : Z) : Prop := match bm with Some m => m <= j | None => True end.
+Lemma above_mono bm i j : i <= j -> above bm i -> above bm j.
+Proof. destruct bm as [m|]; cbn [above]; [lia|auto]. Qed.
+
+Lemma xp_start_line bm P j : page_index j = P -> above bm j -> xp_start bm P <= line_index j.
+Proof.
+  intros Hp Hb. unfold xp_start. pose proof (line_index_range j) as Hl.
+  destruct bm as [m|]; [|lia]. cbn [above] in Hb.
+  destruct (Z.eqb_spec P (page_index m)) as [E|E]; [|lia].
+  destruct (idx_decomp j) as [pj [lj [Ep [El [Ej Hlj]]]]].
+  destruct (idx_decomp m) as [pm [lm [Ep' [El' [Em Hlm]]]]].
+  rewrite El, El'. rewrite Ep in Hp. rewrite Ep' in E. lia.
+Qed.
+Lemma xp_start_above bm P l :
+  xp_guard bm P = true -> 0 <= l < 32 -> xp_start bm P <= l -> above bm (P * 32 + l).
+Proof.
+  unfold xp_guard, xp_start. destruct bm as [m|]; cbn [above]; [|auto].
+  intros G Hl Hs. apply Z.leb_le in G.
+  destruct (idx_decomp m) as [pm [lm [Ep' [El' [Em Hlm]]]]]. rewrite Ep', El' in *.
+  destruct (Z.eqb_spec P pm) as [E|E]; lia.
+Qed.
+
+(* the page loop of MaxIndex, from page number P down *)
+Lemma max_pages_spec bm : forall rpgs P,
+  Forall (fun pg => zlen pg <= 32) rpgs ->
+  match max_pages bm rpgs P with
+  | Some i => i < (P + 1) * 32 /\ (w0 < cellr rpgs P i)%Qc /\
+              (forall j, i < j < (P + 1) * 32 -> (cellr rpgs P j <= w0)%Qc) /\ above bm i
+  | None => forall j, j < (P + 1) * 32 -> above bm j -> (cellr rpgs P j <= w0)%Qc
+  end.
+Proof.
+  induction rpgs as [|pg tl IH]; intros P Hlen.
+  - rewrite max_pages_nil. intros j _ _. rewrite cellr_nil. apply wle0_refl.
+  - inversion Hlen as [|pg' tl' Hpg Htl]; subst pg' tl'.
+    rewrite max_pages_cons. destruct (xp_guard bm P) eqn:G.
+    2:{ intros j Hj Hb. exfalso. unfold xp_guard in G. destruct bm as [m|]; [|discriminate].
+        apply Z.leb_gt in G. cbn [above] in Hb. rewrite page_index_div in G. lia. }
+    pose proof (last_pos_spec pg (xp_start bm P)) as LP.
+    destruct (last_pos pg (xp_start bm P)) as [l|].
+    + destruct LP as [Hl [Hs [Hpos Hab]]].
+      rewrite index_of_mul. split; [lia|]. split; [|split].
+      * rewrite cellr_cons, <- index_of_mul, page_index_index_of, line_index_index_of, Z.eqb_refl by lia.
+        exact Hpos.
+      * intros j Hj. rewrite cellr_cons. destruct (idx_decomp j) as [pj [lj [Ep [El [Ej Hlj]]]]].
+        rewrite Ep, El. destruct (Z.eqb_spec pj P) as [E|E]; [|lia]. apply Hab. lia.
+      * apply xp_start_above; [exact G|lia|exact Hs].
+    + specialize (IH (P - 1) Htl). replace (P - 1 + 1) with P in IH by lia.
+      destruct (max_pages bm tl (P - 1)) as [i|].
+      * destruct IH as [H1 [H2 [H3 H4]]]. split; [lia|]. split; [|split].
+        -- rewrite cellr_cons. destruct (Z.eqb_spec (page_index i) P) as [E|E]; [|exact H2].
+           rewrite page_index_div in E. lia.
+        -- intros j Hj. rewrite cellr_cons. destruct (Z.eqb_spec (page_index j) P) as [E|E].
+           ++ apply LP. apply xp_start_line; [exact E|]. apply (above_mono bm i); [lia|exact H4].
+           ++ apply H3. rewrite page_index_div in E. lia.
+        -- exact H4.
+      * intros j Hj Hb. rewrite cellr_cons. destruct (Z.eqb_spec (page_index j) P) as [E|E].
+        -- apply LP. apply xp_start_line; assumption.
+        -- apply IH; [|exact Hb]. rewrite page_index_div in E. lia.
+Qed.
+
+Lemma PInv_rev_le32 s : PInv s -> Forall (fun pg => zlen pg <= 32) (rev (pages s)).
+Proof. intros H. apply Forall_rev. apply pc_le32_Forall. apply PInv_le32. exact H. Qed.
+
+(* what the page loop of MaxIndex yields, in terms of the cells of the store *)
+Lemma p_max_pages_spec s bm : PInv s ->
+  match (if minPage s <=? wrap_i64 (minPage s + zlen (pages s) - 1)
+         then max_pages bm (rev (pages s)) (wrap_i64 (minPage s + zlen (pages s) - 1)) else None) with
+  | Some i => (w0 < cell s i)%Qc /\ (forall j, i < j -> (cell s j <= w0)%Qc) /\ above bm i
+  | None => forall j, above bm j -> (cell s j <= w0)%Qc
+  end.
+Proof.
+  intros H. destruct (Z.eq_dec (minPage s) MaxInt64) as [E|E].
+  - (* sentinel state: every page is nil, whatever the loop bounds *)
+    assert (Hc : forall P j, cellr (rev (pages s)) P j = w0).
+    { intros P j. unfold cellr. rewrite pgat_rev, (inv_sent s H E). apply at_nil. }
+    set (last := wrap_i64 (minPage s + zlen (pages s) - 1)).
+    pose proof (max_pages_spec bm (rev (pages s)) last (PInv_rev_le32 s H)) as M.
+    destruct (minPage s <=? last).
+    + destruct (max_pages bm (rev (pages s)) last) as [i|].
+      * destruct M as [_ [M2 _]]. rewrite Hc in M2. exfalso. wlra.
+      * intros j _. rewrite cell_sent by assumption. apply wle0_refl.
+    + intros j _. rewrite cell_sent by assumption. apply wle0_refl.
+  - destruct (PInv_nowrap s H E) as [B1 [B2 B3]].
+    rewrite wrap_i64_id by (unfold PM, MinInt64, MaxInt64 in *; lia).
+    destruct (minPage s <=? minPage s + zlen (pages s) - 1) eqn:C.
+    + pose proof (max_pages_spec bm (rev (pages s)) (minPage s + zlen (pages s) - 1) (PInv_rev_le32 s H)) as M.
+      destruct (max_pages bm (rev (pages s)) (minPage s + zlen (pages s) - 1)) as [i|].
+      * destruct M as [M1 [M2 [M3 M4]]]. rewrite cellr_rev_cell in M2. split; [exact M2|]. split; [|exact M4].
+        intros j Hj. rewrite <- cellr_rev_cell.
+        destruct (Z.lt_ge_cases j ((minPage s + zlen (pages s) - 1 + 1) * 32)) as [Hlt|Hge].
+        -- apply M3. lia.
+        -- rewrite cellr_above by exact Hge. apply wle0_refl.
+      * intros j Hb. rewrite <- cellr_rev_cell.
+        destruct (Z.lt_ge_cases j ((minPage s + zlen (pages s) - 1 + 1) * 32)) as [Hlt|Hge].
+        -- apply M; assumption.
+        -- rewrite cellr_above by exact Hge. apply wle0_refl.
+    + intros j _. apply Z.leb_gt in C.
+      assert (Hz : zlen (pages s) = 0) by lia. apply zlen_nil_iff in Hz.
+      unfold cell. rewrite Hz, pgat_nil, at_nil. apply wle0_refl.
+Qed.
+
+Theorem p_max_go_spec s : PInv s -> p_max_go s = max_key (pabs s).
+Proof.
+  intros H. unfold p_max_go. cbv zeta.
+  pose proof (p_max_pages_spec s (buf_max (buffer s)) H) as FP.
+  pose proof (buf_max_spec (buffer s)) as BM.
+  destruct (if minPage s <=? wrap_i64 (minPage s + zlen (pages s) - 1)
+            then max_pages (buf_max (buffer s)) (rev (pages s)) (wrap_i64 (minPage s + zlen (pages s) - 1))
+            else None) as [i|].
+  - destruct FP as [F1 [F2 F3]]. symmetry. apply (max_key_iff _ _ (wf_pabs s H)). split.
+    + rewrite get_pabs by exact H. unfold pget. pose proof (cnt_nonneg (buffer s) i) as Hc. wlra.
+    + intros j Hj. rewrite get_pabs by exact H. unfold pget.
+      rewrite (wle0_nonneg_eq (cell s j) (F2 j Hj) (cell_nonneg s j H)), wadd_0_r.
+      destruct (buf_max (buffer s)) as [m|].
+      * destruct BM as [_ Hall]. cbn [above] in F3. apply (cnt_zero_gt _ m); [exact Hall|lia].
+      * rewrite BM. apply cnt_nil.
+  - destruct (buf_max (buffer s)) as [m|].
+    + destruct BM as [Hin Hall]. symmetry. apply (max_key_iff _ _ (wf_pabs s H)). split.
+      * rewrite get_pabs by exact H. unfold pget. pose proof (cnt_in_pos (buffer s) m Hin) as Hc.
+        pose proof (cell_nonneg s m H) as Hn. wlra.
+      * intros j Hj. rewrite get_pabs by exact H. unfold pget.
+        assert (Hab : above (Some m) j) by (cbn [above]; lia).
+        rewrite (wle0_nonneg_eq (cell s j) (FP j Hab) (cell_nonneg s j H)), wadd_0_r.
+        apply (cnt_zero_gt _ m); assumption.
+    + assert (E : pabs s = []).
+      { apply (pabs_nil_iff s H). intros i. unfold pget. rewrite BM, cnt_nil, wadd_0_l.
+        apply wle0_nonneg_eq; [apply FP; exact I|apply cell_nonneg; exact H]. }
+      rewrite E. reflexivity.
+Qed.
+
+(* ================================================================== *)
+(** * 5. minIndexWithCumulCount / KeyAtRank                            *)
+(* ================================================================== *)
+
+(* The loop state is (rest of the sorted buffer, rest of the cells, cumulative count so far).
+   [Fq buf cells cumul j] is the cumulative count the loop would have reached once every remaining
+   entry of index <= j is consumed. Initially it is [cum (pabs s) j]. *)
+Definition Fq (buf : list Z) (cells : list (Z * W)) (cumul : W) (j : Z) : W :=
+  wadd cumul (wadd (cum (unit_bins buf) j) (cum cells j)).
+(* the answer [o] is right for the cumulative function F: the least index where F exceeds the
+   rank, or None when F never does *)
+Definition Res (F : Z -> W) (rank : W) (o : option Z) : Prop :=
+  match o with
+  | Some k => (rank < F k)%Qc /\ forall j, j < k -> (F j <= rank)%Qc
+  | None => forall j, (F j <= rank)%Qc
+  end.
+
+Lemma Res_ext F G rank o : (forall j, F j = G j) -> Res F rank o -> Res G rank o.
+Proof.
+  intros E. destruct o as [k|]; cbn [Res].
+  - intros [H1 H2]. split; [rewrite <- E; exact H1|]. intros j Hj. rewrite <- E. apply H2. exact Hj.
+  - intros H j. rewrite <- E. apply H.
+Qed.
+(* consuming the entry of least index x: F' is the cumulative function of the new state *)
+Lemma Res_transfer F F' rank x o :
+  (forall j, (F j <= F' j)%Qc) -> (forall j, x <= j -> F j = F' j) ->
+  (forall j, j < x -> (F' j <= rank)%Qc) ->
+  Res F' rank o -> Res F rank o.
+Proof.
+  intros Ha Hb Hc. destruct o as [k|]; cbn [Res].
+  - intros [H1 H2].
+    assert (Hk : x <= k).
+    { destruct (Z.lt_ge_cases k x) as [Hlt|Hge]; [|exact Hge]. exfalso. specialize (Hc k Hlt). wlra. }
+    split; [rewrite (Hb k Hk); exact H1|].
+    intros j Hj. specialize (Ha j). specialize (H2 j Hj). wlra.
+  - intros H j. specialize (Ha j). specialize (H j). wlra.
+Qed.
+
+Lemma unit_bins_cons x tl : unit_bins (x :: tl) = (x, w1) :: unit_bins tl.
+Proof. reflexivity. Qed.
+Lemma cum_ub_cons x tl j :
+  cum (unit_bins (x :: tl)) j = if x <=? j then wadd w1 (cum (unit_bins tl) j) else cum (unit_bins tl) j.
+Proof. rewrite unit_bins_cons. apply cum_cons. Qed.
+Lemma cum_ub_nil j : cum (unit_bins []) j = w0.
+Proof. reflexivity. Qed.
+Lemma cum_ub_above buf j : Forall (fun x => j < x) buf -> cum (unit_bins buf) j = w0.
+Proof.
+  induction buf as [|x tl IH]; intros H; [reflexivity|].
+  inversion H as [|x' tl' Hx Htl]; subst x' tl'. rewrite cum_ub_cons.
+  destruct (Z.leb_spec x j) as [Hle|Hgt]; [lia|]. apply IH. exact Htl.
+Qed.
+Lemma cum_ub_nonneg buf j : (w0 <= cum (unit_bins buf) j)%Qc.
+Proof. apply cum_nonneg. apply nonneg_unit_bins. Qed.
+Lemma cum_asc_below lo cells j : asc lo cells -> j <= lo -> cum cells j = w0.
+Proof.
+  revert lo. induction cells as [|[k w] tl IH]; intros lo Ha Hj; [reflexivity|].
+  cbn [asc fst] in Ha. destruct Ha as [Hlo Ha]. rewrite cum_cons.
+  destruct (Z.leb_spec k j) as [Hle|Hgt]; [lia|]. apply (IH k); [exact Ha|lia].
+Qed.
+Lemma ssorted_head_lt x tl j : StronglySorted Z.le (x :: tl) -> j < x -> Forall (fun y => j < y) (x :: tl).
+Proof.
+  intros Hs Hj. apply StronglySorted_inv in Hs. destruct Hs as [_ Hall].
+  constructor; [exact Hj|]. eapply Forall_impl; [|exact Hall]. intros y Hy. cbv beta in *. lia.
+Qed.
+
+(* one buffer entry: found here / passed over *)
+Lemma Fq_buf_hit x tl cells cumul rank :
+  nonneg cells -> StronglySorted Z.le (x :: tl) -> (forall j, j < x -> cum cells j = w0) ->
+  (cumul <= rank)%Qc -> (rank < wadd cumul w1)%Qc ->
+  Res (Fq (x :: tl) cells cumul) rank (Some x).
+Proof.
+  intros Hn Hs Hcz Hc Hr. cbn [Res]. split.
+  - unfold Fq. rewrite cum_ub_cons, Z.leb_refl.
+    pose proof (cum_ub_nonneg tl x) as H1. pose proof (cum_nonneg cells x Hn) as H2. wlra.
+  - intros j Hj. unfold Fq. rewrite (cum_ub_above (x :: tl) j) by (apply ssorted_head_lt; assumption).
+    rewrite (Hcz j Hj). wlra.
+Qed.
+Lemma Fq_buf_skip x tl cells cumul rank :
+  StronglySorted Z.le (x :: tl) -> (forall j, j < x -> cum cells j = w0) ->
+  (wadd cumul w1 <= rank)%Qc ->
+  forall o, Res (Fq tl cells (wadd cumul w1)) rank o -> Res (Fq (x :: tl) cells cumul) rank o.
+Proof.
+  intros Hs Hcz Hr o. apply (Res_transfer _ _ rank x).
+  - intros j. unfold Fq. rewrite cum_ub_cons. destruct (x <=? j); wlra.
+  - intros j Hj. unfold Fq. rewrite cum_ub_cons. destruct (Z.leb_spec x j) as [H|H]; [|lia]. wring.
+  - intros j Hj. unfold Fq. pose proof (ssorted_head_lt x tl j Hs Hj) as Hall.
+    inversion Hall as [|x' tl' _ Htl]; subst x' tl'.
+    rewrite (cum_ub_above tl j Htl), (Hcz j Hj). wlra.
+Qed.
+
+(* the inner loop over the buffer entries strictly below [index] *)
+Lemma drain_rank_spec rank index cells :
+  nonneg cells -> (forall j, j < index -> cum cells j = w0) ->
+  forall buf cumul, (cumul <= rank)%Qc -> StronglySorted Z.le buf ->
+  match drain_rank rank index buf cumul with
+  | (Some k, _, _) => Res (Fq buf cells cumul) rank (Some k)
+  | (None, b, c) => (c <= rank)%Qc /\ StronglySorted Z.le b /\ Forall (fun x => index <= x) b /\
+                    forall o, Res (Fq b cells c) rank o -> Res (Fq buf cells cumul) rank o
+  end.
+Proof.
+  intros Hn Hcz. induction buf as [|x tl IH]; intros cumul Hc Hs.
+  - rewrite drain_rank_nil. split; [exact Hc|]. split; [exact Hs|]. split; [constructor|]. intros o Ho. exact Ho.
+  - rewrite drain_rank_cons. destruct (Z.ltb_spec x index) as [Hx|Hx].
+    + assert (Hcz' : forall j, j < x -> cum cells j = w0) by (intros j Hj; apply Hcz; lia).
+      destruct (wltb rank (wadd cumul w1)) eqn:Ew.
+      * apply wltb_lt in Ew. apply Fq_buf_hit; assumption.
+      * apply wltb_ge in Ew. pose proof (Fq_buf_skip x tl cells cumul rank Hs Hcz' Ew) as TL.
+        pose proof (proj1 (StronglySorted_inv Hs)) as Hs'.
+        specialize (IH (wadd cumul w1) Ew Hs').
+        destruct (drain_rank rank index tl (wadd cumul w1)) as [[[k|] b] c].
+        -- apply TL. exact IH.
+        -- destruct IH as [A [B [C D]]]. split; [exact A|]. split; [exact B|]. split; [exact C|].
+           intros o Ho. apply TL, D, Ho.
+    + split; [exact Hc|]. split; [exact Hs|]. split; [|intros o Ho; exact Ho].
+      apply StronglySorted_inv in Hs. destruct Hs as [_ Hall]. constructor; [lia|].
+      eapply Forall_impl; [|exact Hall]. intros y Hy. cbv beta in *. lia.
+Qed.
+
+(* the loop over the cells *)
+Lemma rank_cells_spec rank : forall cells lo buf cumul,
+  asc lo cells -> nonneg cells -> (cumul <= rank)%Qc -> StronglySorted Z.le buf ->
+  match rank_cells rank cells buf cumul with
+  | (Some k, _, _) => Res (Fq buf cells cumul) rank (Some k)
+  | (None, b, c) => (c <= rank)%Qc /\ StronglySorted Z.le b /\
+                    forall o, Res (Fq b [] c) rank o -> Res (Fq buf cells cumul) rank o
+  end.
+Proof.
+  induction cells as [|[index count] ctl IH]; intros lo buf cumul Ha Hn Hc Hs.
+  - rewrite rank_cells_nil. split; [exact Hc|]. split; [exact Hs|]. intros o Ho. exact Ho.
+  - rewrite rank_cells_cons. cbn [asc fst] in Ha. destruct Ha as [Hlo Hasc].
+    pose proof Hn as Hn0. apply nonneg_cons in Hn. destruct Hn as [Hcount Hnt].
+    assert (Hcz : forall j, j < index -> cum ((index, count) :: ctl) j = w0).
+    { intros j Hj. rewrite cum_cons. destruct (Z.leb_spec index j) as [H|H]; [lia|].
+      apply (cum_asc_below index); [exact Hasc|lia]. }
+    pose proof (drain_rank_spec rank index ((index, count) :: ctl) Hn0 Hcz buf cumul Hc Hs) as D.
+    destruct (drain_rank rank index buf cumul) as [[[k|] b] c]; [exact D|].
+    destruct D as [Dc [Ds [Db Dk]]].
+    assert (Hub : forall j, j < index -> cum (unit_bins b) j = w0).
+    { intros j Hj. apply cum_ub_above. eapply Forall_impl; [|exact Db]. intros y Hy. cbv beta in *. lia. }
+    destruct (wltb rank (wadd c count)) eqn:Ew.
+    + apply wltb_lt in Ew. apply Dk. cbn [Res]. split.
+      * unfold Fq. rewrite cum_cons, Z.leb_refl.
+        pose proof (cum_ub_nonneg b index) as H1. pose proof (cum_nonneg ctl index Hnt) as H2. wlra.
+      * intros j Hj. unfold Fq. rewrite (Hub j Hj), (Hcz j Hj). wlra.
+    + apply wltb_ge in Ew. specialize (IH index b (wadd c count) Hasc Hnt Ew Ds).
+      assert (TL : forall o, Res (Fq b ctl (wadd c count)) rank o -> Res (Fq b ((index, count) :: ctl) c) rank o).
+      { intros o. apply (Res_transfer _ _ rank index).
+        - intros j. unfold Fq. rewrite cum_cons. destruct (index <=? j); wlra.
+        - intros j Hj. unfold Fq. rewrite cum_cons. destruct (Z.leb_spec index j) as [H|H]; [|lia]. wring.
+        - intros j Hj. unfold Fq. rewrite (Hub j Hj), (cum_asc_below index ctl j Hasc) by lia. wlra. }
+      destruct (rank_cells rank ctl b (wadd c count)) as [[[k|] b2] c2].
+      * apply Dk, TL, IH.
+      * destruct IH as [A [B C]]. split; [exact A|]. split; [exact B|].
+        intros o Ho. apply Dk, TL, C, Ho.
+Qed.
+
+(* the loop over the rest of the buffer *)
+Lemma rank_rest_spec rank : forall buf cumul,
+  (cumul <= rank)%Qc -> StronglySorted Z.le buf -> Res (Fq buf [] cumul) rank (rank_rest rank buf cumul).
+Proof.
+  induction buf as [|x tl IH]; intros cumul Hc Hs.
+  - rewrite rank_rest_nil. cbn [Res]. intros j. unfold Fq. rewrite cum_ub_nil, cum_nil. wlra.
+  - rewrite rank_rest_cons.
+    assert (Hcz : forall j, j < x -> cum (@nil (Z * W)) j = w0) by (intros j _; apply cum_nil).
+    destruct (wltb rank (wadd cumul w1)) eqn:Ew.
+    + apply wltb_lt in Ew. apply Fq_buf_hit; [apply nonneg_nil|exact Hs|exact Hcz|exact Hc|exact Ew].
+    + apply wltb_ge in Ew. apply (Fq_buf_skip x tl [] cumul rank Hs Hcz Ew).
+      apply IH; [exact Ew|]. apply (StronglySorted_inv Hs).
+Qed.
+
+(* ---- from the cumulative function to key_at_rank ---- *)
+Lemma Res_some_key b r k :
+  wf b = true -> pos b -> (w0 <= r)%Qc -> Res (cum b) r (Some k) -> key_at_rank b r = Some k.
+Proof.
+  intros Hwf Hp Hr [H1 H2].
+  assert (Hne : b <> []). { intros E. subst b. rewrite cum_nil in H1. wlra. }
+  destruct (key_at_rank_spec b r Hwf Hp Hne Hr) as [k' [E [_ [[H3 H4]|[H3 H4]]]]].
+  - rewrite E. f_equal. destruct (Z.lt_trichotomy k k') as [Hlt|[Heq|Hgt]]; [|symmetry; exact Heq|]; exfalso.
+    + specialize (H4 k Hlt). wlra.
+    + specialize (H2 k' Hgt). wlra.
+  - exfalso. specialize (H4 k). wlra.
+Qed.
+Lemma Res_none_key b r k :
+  wf b = true -> pos b -> (w0 <= r)%Qc -> Res (cum b) r None -> key_at_rank b r = Some k -> max_key b = Some k.
+Proof. intros Hwf Hp Hr H E. apply (key_at_rank_last b r k Hwf Hp Hr E). exact H. Qed.
+Lemma kar_clamp b r : pos b -> key_at_rank b (if wltb r w0 then w0 else r) = key_at_rank b r.
+Proof.
+  intros Hp. destruct (wltb r w0) eqn:E; [|reflexivity]. apply wltb_lt in E.
+  rewrite key_at_rank_0, key_at_rank_neg by assumption. reflexivity.
+Qed.
+
+Lemma Fq_init sort s j : sort_ok sort -> Fq (sort (buffer s)) (page_cells s) w0 j = cum (pabs s) j.
+Proof.
+  intros Hs. unfold Fq, pabs, cum. rewrite gsum_bins_of_list, gsum_app, wadd_0_l. f_equal.
+  apply gsum_perm. unfold unit_bins. apply Permutation_map. apply Permutation_sym. apply Hs.
+Qed.
+
+Lemma p_key_at_rank_go_unfold sort s r :
+  p_key_at_rank_go sort s r =
+  let r' := if wltb r w0 then w0 else r in
+  let s' := with_buffer s (sort (buffer s)) in
+  (s', match rank_cells r' (page_cells s') (sort (buffer s)) w0 with
+       | (Some k, _, _) => k
+       | (None, b, c) => match rank_rest r' b c with
+                         | Some k => k
+                         | None => match p_max_go s' with Some k => k | None => 0 end
+                         end
+       end).
+Proof.
+  unfold p_key_at_rank_go. cbv zeta.
+  destruct (rank_cells (if wltb r w0 then w0 else r) (page_cells (with_buffer s (sort (buffer s))))
+                       (sort (buffer s)) w0) as [[[k|] b] c]; [reflexivity|].
+  destruct (rank_rest (if wltb r w0 then w0 else r) b c); reflexivity.
+Qed.
+
+Theorem p_key_at_rank_go_key sort s r :
+  sort_ok sort -> PInv s ->
+  exists k, p_key_at_rank_go sort s r = (with_buffer s (sort (buffer s)), k) /\
+            (pabs s <> [] -> key_at_rank (pabs s) r = Some k) /\ (pabs s = [] -> k = 0).
+Proof.
+  intros Hs H. rewrite p_key_at_rank_go_unfold. cbv zeta.
+  set (r' := if wltb r w0 then w0 else r).
+  assert (Hr' : (w0 <= r')%Qc).
+  { unfold r'. destruct (wltb r w0) eqn:E; [apply wle0_refl|]. apply wltb_ge in E. exact E. }
+  assert (Hk : key_at_rank (pabs s) r' = key_at_rank (pabs s) r) by (apply kar_clamp, pos_pabs; exact H).
+  destruct (p_foreach_spec sort s Hs H) as [_ [W1 [_ W3]]].
+  change (page_cells (with_buffer s (sort (buffer s)))) with (page_cells s).
+  destruct (page_cells_asc s (PInv_le32 s H)) as [lo Hasc].
+  assert (Hsorted : StronglySorted Z.le (sort (buffer s))).
+  { apply Sorted_StronglySorted; [intros a b c; apply Z.le_trans|apply Hs]. }
+  pose proof (rank_cells_spec r' (page_cells s) lo (sort (buffer s)) w0 Hasc (nonneg_cells s H) Hr' Hsorted) as RC.
+  assert (Hinit : forall o, Res (Fq (sort (buffer s)) (page_cells s) w0) r' o -> Res (cum (pabs s)) r' o).
+  { intros o. apply Res_ext. intros j. apply Fq_init. exact Hs. }
+  pose proof (wf_pabs s H) as Hwf. pose proof (pos_pabs s H) as Hp.
+  assert (Hsome : forall k, Res (cum (pabs s)) r' (Some k) ->
+                  (pabs s <> [] -> key_at_rank (pabs s) r = Some k) /\ (pabs s = [] -> k = 0)).
+  { intros k Hres. pose proof (Res_some_key _ _ _ Hwf Hp Hr' Hres) as E. rewrite Hk in E.
+    split; [intros _; exact E|]. intros En. rewrite En in E. discriminate. }
+  destruct (rank_cells r' (page_cells s) (sort (buffer s)) w0) as [[[k|] b] c].
+  - exists k. split; [reflexivity|]. apply Hsome, Hinit, RC.
+  - destruct RC as [Rc [Rs Rk]]. pose proof (rank_rest_spec r' b c Rc Rs) as RR.
+    destruct (rank_rest r' b c) as [k|].
+    + exists k. split; [reflexivity|]. apply Hsome, Hinit, Rk, RR.
+    + apply Rk, Hinit in RR. rewrite (p_max_go_spec _ W1), W3.
+      destruct (pabs s) as [|kw tl] eqn:Eb.
+      * exists 0. split; [reflexivity|]. split; [intros Hne; contradiction|reflexivity].
+      * rewrite <- Eb in *. assert (Hne : pabs s <> []) by (rewrite Eb; discriminate).
+        destruct (karf_some w0 (pabs s) r' Hne) as [k Ek]. fold (key_at_rank (pabs s) r') in Ek.
+        rewrite (Res_none_key _ _ _ Hwf Hp Hr' RR Ek). exists k. split; [reflexivity|].
+        split; [intros _; rewrite <- Hk; exact Ek|]. intros En. contradiction.
+Qed.
+
+Theorem p_key_at_rank_go_spec sort s r :
+  sort_ok sort -> PInv s ->
+  p_key_at_rank_go sort s r = (with_buffer s (sort (buffer s)), snd (p_key_at_rank sort s r)).
+Proof.
+  intros Hs H. destruct (p_key_at_rank_go_key sort s r Hs H) as [k [E [K1 K2]]]. rewrite E. f_equal.
+  destruct (p_key_at_rank_spec sort s r Hs H) as [_ [_ [_ [S1 S2]]]]. cbv zeta in S1, S2.
+  destruct (pabs s) as [|kw tl] eqn:Eb.
+  - rewrite K2, S2 by reflexivity. reflexivity.
+  - assert (Hne : kw :: tl <> []) by discriminate.
+    specialize (K1 Hne). specialize (S1 Hne). rewrite K1 in S1. injection S1 as S1. exact S1.
+Qed.
+
+(* ---- MinIndex / MaxIndex spelled out on the content function ---- *)
+Theorem p_min_go_content s : PInv s ->
+  match p_min_go s with
+  | Some k => pget s k <> w0 /\ forall j, j < k -> pget s j = w0
+  | None => forall j, pget s j = w0
+  end.
+Proof.
+  intros H. rewrite (p_min_go_spec s H). destruct (min_key (pabs s)) as [k|] eqn:E.
+  - apply (min_key_iff _ _ (wf_pabs s H)) in E. destruct E as [E1 E2]. rewrite get_pabs in E1 by exact H.
+    split; [exact E1|]. intros j Hj. rewrite <- get_pabs by exact H. apply E2. exact Hj.
+  - apply min_key_none in E. apply (pabs_nil_iff s H). exact E.
+Qed.
+Theorem p_max_go_content s : PInv s ->
+  match p_max_go s with
+  | Some k => pget s k <> w0 /\ forall j, k < j -> pget s j = w0
+  | None => forall j, pget s j = w0
+  end.
+Proof.
+  intros H. rewrite (p_max_go_spec s H). destruct (max_key (pabs s)) as [k|] eqn:E.
+  - apply (max_key_iff _ _ (wf_pabs s H)) in E. destruct E as [E1 E2]. rewrite get_pabs in E1 by exact H.
+    split; [exact E1|]. intros j Hj. rewrite <- get_pabs by exact H. apply E2. exact Hj.
+  - apply max_key_none in E. apply (pabs_nil_iff s H). exact E.
+Qed.
+
+(* ================================================================== *)
+(** * 6. The loop-style and the scan-style observers coincide          *)
+(* ================================================================== *)
+
+Theorem p_min_go_scan sort s : sort_ok sort -> PInv s -> p_min_go s = p_min sort s.
+Proof. intros Hs H. rewrite p_min_go_spec, p_min_spec by assumption. reflexivity. Qed.
+Theorem p_max_go_scan sort s : sort_ok sort -> PInv s -> p_max_go s = p_max sort s.
+Proof. intros Hs H. rewrite p_max_go_spec, p_max_spec by assumption. reflexivity. Qed.
+Theorem p_key_at_rank_go_scan sort s r :
+  sort_ok sort -> PInv s -> p_key_at_rank_go sort s r = p_key_at_rank sort s r.
+Proof.
+  intros Hs H. rewrite p_key_at_rank_go_spec by assumption.
+  rewrite (surjective_pairing (p_key_at_rank sort s r)) at 2. f_equal.
+  rewrite p_key_at_rank_unfold. cbn [fst]. destruct (p_foreach_spec sort s Hs H) as [E _]. rewrite E. reflexivity.
+Qed.
+Theorem p_observers_agree sort s :
+  sort_ok sort -> PInv s ->
+  p_min_go s = p_min sort s /\ p_max_go s = p_max sort s /\
+  forall r, p_key_at_rank_go sort s r = p_key_at_rank sort s r.
+Proof.
+  intros Hs H. split; [apply p_min_go_scan; assumption|]. split; [apply p_max_go_scan; assumption|].
+  intros r. apply p_key_at_rank_go_scan; assumption.
+Qed.
